@@ -13,6 +13,7 @@ import Driver.Util
 import Driver.Listing
 import Driver.Macro
 import Driver.Link
+import Driver.Reader
 
 def dispatch (line : String) : String :=
   match (line.trimAscii.toString.splitOn " ").filter (· ≠ "") with
@@ -49,6 +50,9 @@ def dispatch (line : String) : String :=
   | "lst" :: args => Driver.Listing.handle args
   | "mexp" :: args => Driver.Macro.handleMexp args
   | "link" :: args => Driver.Link.handle args
+  | "tk" :: args => Driver.Reader.handleTk args
+  | "mp" :: args => Driver.Reader.handleMp args
+  | "mx" :: args => Driver.Reader.handleMx args
   | _ => "bad-op"
 
 partial def loop (h : IO.FS.Stream) (out : IO.FS.Stream) : IO Unit := do
